@@ -3,6 +3,7 @@ package main
 import (
 	"encoding/json"
 	"fmt"
+	"math"
 	"sort"
 	"strconv"
 
@@ -26,6 +27,10 @@ func reprsOf(z int64) []TV {
 		out = append(out, tvFloat("float64", f), tvSlice("[]float64", tvFloat("float64", f)), tvList(tvFloat("float64", f)))
 		if float64(float32(f)) == f {
 			out = append(out, tvFloat("float32", f), tvSlice("[]float32", tvFloat("float32", f)))
+		}
+		if z == 0 { // floats whose integer part is 0 but whose sign bit is set
+			out = append(out, tvFloat("float64", -0.7), tvSlice("[]float64", tvFloat("float64", -0.25)), tvFloat("float64", math.Copysign(0, -1)),
+				tvFloat("float32", -0.5), tvList(tvFloat("float64", -0.5)))
 		}
 		if z >= 0 {
 			out = append(out, tvFloat("float64", f+0.7), tvSlice("[]float64", tvFloat("float64", f+0.25)))
